@@ -1,7 +1,8 @@
 (* C07 — scan results are repeatable and independent of worker scheduling. *)
-From CPF Require Import Base.Skel Scan.Merge Scan.MergeFacts Scan.Pool Scan.PoolFacts Scan.PoolSkel.
+From CPF Require Import Base.Bytes Base.Skel Scan.Merge Scan.MergeFacts Scan.Pool Scan.PoolFacts Scan.PoolSkel Scan.SkelSem Scan.SkelAbs Scan.SkelSim.
 From CPF.gen Require Import Tables.
-From Coq Require Import Permutation.
+From Coq Require Import List Permutation.
+Import ListNotations.
 
 (* (a) the merge: any two arrival orders of the same per-file graphs give the same entities and
    the same call links, provided no identity occurs in two per-file graphs (checked on every
@@ -49,3 +50,32 @@ Print Assumptions C07_quiescent.
 Theorem C07_skeleton : pool_program = pool_program_modelled.
 Proof. exact pool_program_matches. Qed.
 Print Assumptions C07_skeleton.
+
+(* (d) ... and the transition system is not only "the same program text": under a generic small-step semantics
+   of goroutines, buffered channels, close, range, select, wait groups and deferred closes (Scan/SkelSem.v)
+   every execution of the EXTRACTED program, for any list of files and any assignment of read / parse
+   failures, is step for step an execution of the transition system above (silent steps aside) ... *)
+Theorem C07_program_refines : forall (files : list nat) (fails : bytes -> nat -> bool) s s',
+  sreach files fails s -> In s' (sk_steps pool_program files fails s) ->
+  abs files 5 s' = abs files 5 s \/
+  step (length files) 5 (SkelSim.readable fails) (abs files 5 s) (abs files 5 s').
+Proof. exact skel_simulates_pool_extracted. Qed.
+Print Assumptions C07_program_refines.
+
+(* ... no execution sends on or closes a closed channel or drives the wait group below zero ... *)
+Theorem C07_program_no_panic : forall (files : list nat) (fails : bytes -> nat -> bool) s,
+  sreach files fails s -> s_panic s = false.
+Proof. exact skel_no_panic. Qed.
+Print Assumptions C07_program_no_panic.
+
+(* ... and whenever no goroutine of the program can move, every goroutine has returned, the graphs merged are
+   those of the readable files (each once), every file was merged or skipped, and the arrival order is one
+   a five-place reorder buffer allows: whatever the scheduler did *)
+Theorem C07_program_result : forall (files : list nat) (fails : bytes -> nat -> bool) s,
+  sreach files fails s -> sk_steps pool_program_modelled files fails s = [] ->
+  finished s = true /\
+  Permutation (s_merged s) (filter (SkelSim.readable fails) files) /\
+  Permutation files (s_merged s ++ s_skipped s) /\
+  buffered 5 [] (filter (SkelSim.readable fails) files) (s_merged s).
+Proof. exact skel_stuck_result. Qed.
+Print Assumptions C07_program_result.
